@@ -115,6 +115,14 @@ class Runner:
             return 9
         raise AssertionError(f"unknown destination {sockaddr}")
 
+    # remote 5 is a peer the application named with a zone on a global address (`coap://[2001:db8::6%lo]`):
+    # `determine_remote` puts the interface index into the scope id of the address it sends to, while the kernel
+    # reports scope id 0 for what arrives from a non-link-local source -- one endpoint, two spellings
+    ZONED_OUT = {5: ("2001:db8::6", 5683, 0, 1)}
+
+    def sockaddr_out(self, remote):
+        return self.ZONED_OUT.get(remote) or self.sockaddr(remote)
+
     def sockaddr(self, remote):
         if remote in self.LINK_LOCAL:
             return self.LINK_LOCAL[remote]
@@ -213,7 +221,17 @@ class Runner:
             msg.opt.observe = obs
         if body:
             msg.payload = str(body).encode()
-        msg.remote = netsim.remote_for(self.net, self.sockaddr(remote))
+        msg.remote = netsim.remote_for(self.net, self.sockaddr_out(remote))
+        base = (self.script.get("copy_of") or {}).get(str(r))
+        if base is not None:
+            # the application builds this request from a message it has sent before: the `.copy()` of the earlier
+            # request's Message object ("same request again", a poll loop) -- token, message ID and type of the
+            # earlier transmission travel along in the copy (oracle-only scripts)
+            dest = msg.remote
+            msg = self.sent_msgs[base].copy(payload=msg.payload)
+            msg.remote = dest
+        self.sent_msgs = getattr(self, "sent_msgs", {})
+        self.sent_msgs[r] = msg
         bw = (self.script.get("blockwise") or {}).get(str(r))
         if bw is not None:
             # the default API: BlockwiseRequest on top of Request (oracle-only scripts); a body of bw["upload"]
